@@ -292,7 +292,12 @@ class Session(AbstractSession):
         # elif isinstance(src, df.datafrme):
         else:
             reader_ = val.array_from_parameter(self, 'reader', src)
-            result = reader_[val.validate_filter(filter_to_apply_)]
+            filter_ = val.validate_filter(filter_to_apply_)
+            if len(filter_) != len(reader_):
+                # numpy accepts a zero-length boolean index on any array
+                raise IndexError("boolean filter did not match source: the filter has {} entries but the source "
+                                 "has {}".format(len(filter_), len(reader_)))
+            result = reader_[filter_]
             if writer_:
                 writer_.data.write(result)
             return result
